@@ -236,8 +236,7 @@ def kbint (w : World) : World :=
   | _ => w
 
 /-- the process is killed (nothing else happens; the disk keeps its state) -/
-def crash (w : World) : World :=
-  if w.proc.pc.terminal then w else { w with proc := { w.proc with pc := .killed } }
+def crash (w : World) : World := { w with proc := { w.proc with pc := .killed } }
 
 inductive Ev where
   | start (spec : List Nat) (n sf : Nat)   -- (kills a running process and) starts a new one
